@@ -341,6 +341,7 @@ func ruleC13(c *Check, p *Prog) {
 		}
 	}
 	checkWriter(c, p)
+	checkFlagOrder(c, p, pkgDet, "rddetector.main")
 	checkDetMain(c, p)
 }
 
